@@ -28,7 +28,7 @@ def corrupt_kind(rng, H):
     return samegen.gen_header(rng, nloc=rng.choice([1, 2]))
 
 
-def single_transmissions(rng, n, masks=None):
+def single_transmissions(rng, n, masks=None, corrupt_always=False, family="single"):
     """T1: one transmission, every presence mask, header->trailer gap classes, pauses, lengths, corruption"""
     out = []
     for j in range(n):
@@ -39,7 +39,7 @@ def single_transmissions(rng, n, masks=None):
         corrupt = None
         hmask = mask & 7
         # optionally replace one ABSENT header burst by a corrupted one (arbitrary corruption of one burst)
-        if rng.chance(1, 3) and bin(hmask).count("1") == 2:
+        if (corrupt_always or rng.chance(1, 3)) and bin(hmask).count("1") == 2:
             i = [b for b in range(3) if not (hmask >> b) & 1][0]
             corrupt = {i: corrupt_kind(rng, H)}
             mask |= 1 << i
@@ -55,7 +55,7 @@ def single_transmissions(rng, n, masks=None):
         known = None
         if G < 1.31 and hb == 2 and (hmask >> 2) & 1 and ((mask >> 3) & 3) == 0b11 and not corrupt:
             known = "F2"
-        out.append(Scen("single", bursts, exp, known, {"mask": format(mask, "06b")[::-1], "gap_ht": G, "pause": pause, "hlen": len(H), "corrupt": bool(corrupt)}))
+        out.append(Scen(family, bursts, exp, known, {"mask": format(mask, "06b")[::-1], "gap_ht": G, "pause": pause, "hlen": len(H), "corrupt": bool(corrupt)}))
     return out
 
 
